@@ -23,7 +23,7 @@ import (
 const addrA, addrB = "127.0.0.1:1001", "127.0.0.1:1002"
 
 type params struct {
-	kind   string // at-limit (one message whose encoded frame body is exactly size bytes BELOW the 4 MiB frame limit: size 0..5) | after-rejected (a message rejected by its writer after the writer grew by 70 KB, then n valid ones) | concurrent-asks (two outside goroutines Ask through the system at the same moment; with the happens-before race detector) | bytes-burst (messages with a raw []byte payload, kept by the receiver and compared after the whole burst) | burst | two-senders | first-contact | both-ways | ask | idle-gap | idle-gap-noretry (reconnect limit 0)
+	kind   string // around-undecodable (a message the receiving side cannot decode in the middle of a burst of n valid ones) | receiver-replaced (the receiving actor got mail, was killed, a new actor took its name; then a burst) | at-limit (one message whose encoded frame body is exactly size bytes BELOW the 4 MiB frame limit: size 0..5) | after-rejected (a message rejected by its writer after the writer grew by 70 KB, then n valid ones) | concurrent-asks (two outside goroutines Ask through the system at the same moment; with the happens-before race detector) | bytes-burst (messages with a raw []byte payload, kept by the receiver and compared after the whole burst) | burst | two-senders | first-contact | both-ways | ask | idle-gap | idle-gap-noretry (reconnect limit 0)
 	n      int
 	size   int    // payload size
 	chunks string // all | small
@@ -160,6 +160,9 @@ func scenario(p params, bounds []int) *vexp.Scenario {
 								ctx.Tell(target, msg(id, pad))
 								continue
 							}
+							if p.kind == "around-undecodable" && i == 2 {
+								ctx.Tell(target, &vcodec.UnreadableMsg{N: 9}) // encodes fine, the other side's reader rejects it
+							}
 							if p.kind == "after-rejected" && i == 1 {
 								ctx.Tell(target, &vcodec.PadTagMsg{Pad: bytes.Repeat([]byte{5}, 70000), Tag: strings.Repeat("t", 300)})
 							}
@@ -208,7 +211,17 @@ func scenario(p params, bounds []int) *vexp.Scenario {
 						}
 					})
 				}
-			case "burst", "bytes-burst", "at-limit", "after-rejected":
+			case "receiver-replaced":
+				wa.Sys.Tell(wa.Ref("/s1"), vsys.Msg{ID: "go"})
+				vrt.QuiesceNoTimers()
+				wb.Sys.Kill(wb.Ref("/echo"), false, "driver")
+				vrt.QuiesceNoTimers()
+				if _, err := wb.SpawnRoot(&vsys.Script{Name: "echo", OnOther: recv(&atB)}); err != nil {
+					x.Fail("harness", "re-spawn of the receiver: %v", err)
+				}
+				vrt.QuiesceNoTimers()
+				wa.Sys.Tell(wa.Ref("/s1"), vsys.Msg{ID: "go"})
+			case "burst", "bytes-burst", "at-limit", "after-rejected", "around-undecodable":
 				wa.Sys.Tell(wa.Ref("/s1"), vsys.Msg{ID: "go"})
 			case "two-senders", "first-contact":
 				wa.Sys.Tell(wa.Ref("/s1"), vsys.Msg{ID: "go"})
@@ -308,6 +321,9 @@ func scenario(p params, bounds []int) *vexp.Scenario {
 			}
 			for _, w := range []*vsys.World{wa, wb} {
 				for _, pb := range w.Pubs {
+					if pb.Type == "RemotingMessageDecodeFailedEvent" && p.kind == "around-undecodable" {
+						continue // the one message that cannot be decoded
+					}
 					if pb.Type == "RemotingMessageDecodeFailedEvent" && !(p.kind == "after-rejected" && strings.Contains(fmt.Sprintf("%+v", pb.Event), "PadTagMsg")) {
 						x.Fail("no-decode-failure", "a frame failed to decode on a healthy link: %v", pb.Event)
 					}
@@ -349,6 +365,11 @@ func build(tier string) []*vexp.Scenario {
 	}
 	for k := 0; k <= 5; k++ {
 		out = append(out, scenario(params{"at-limit", 1, k, "all"}, b0))
+	}
+	for _, n := range []int{3, 4} {
+		out = append(out, scenario(params{"around-undecodable", n, 10, "all"}, b1))
+		out = append(out, scenario(params{"around-undecodable", n, 10, "small"}, b1))
+		out = append(out, scenario(params{"receiver-replaced", n, 10, "all"}, b0))
 	}
 	for _, n := range []int{1, 3} {
 		out = append(out, scenario(params{"after-rejected", n, 10, "all"}, b0))
